@@ -149,6 +149,29 @@ func streamInsulate(c *ctx) {
 			res = "changed"
 		}
 		w.Emit(fmt.Sprintf("insulate clone card %d", card.CardNumber), res, "insulate/clone")
+		// ... also for a card without any door entry (an empty map, a nil map): writing through the clone or through
+		// the original afterwards must not show in the other
+		for _, doors := range []map[uint8]uint8{{}, nil, {3: 0}} {
+			c0 := types.Card{CardNumber: card.CardNumber, Doors: doors}
+			k := c0.Clone()
+			res = "unchanged"
+			if k.CardNumber != c0.CardNumber {
+				res = "changed"
+			}
+			if k.Doors != nil {
+				k.Doors[3] = 1
+				if c0.Doors[3] == 1 {
+					res = "changed"
+				}
+			}
+			if c0.Doors != nil {
+				c0.Doors[4] = 7
+				if k.Doors[4] == 7 {
+					res = "changed"
+				}
+			}
+			w.Emit(fmt.Sprintf("insulate clone card-with-%d-doors %d", len(doors), card.CardNumber), res, "insulate/clone")
+		}
 		dv := uhppote.Device{Name: "x", DeviceID: dev, Doors: []string{"a", "b", "c", "d"}, TimeZone: time.UTC, Protocol: "udp"}
 		dc := dv.Clone()
 		dc.Doors[0] = "z"
